@@ -13,6 +13,7 @@ import z3
 from .relmodel import zand, zor
 from .symx import SymBool, SymInt, floormod
 
+EFN = {"it": "verif_negate_it", "sq": "verif_negate_sq"}  # engine-specific functions (meaning: negation)
 ARITH = {"neg": "__neg__", "add": "__add__", "sub": "__sub__", "mul": "__mul__"}
 CMP = {"eq": "__eq__", "ne": "__ne__", "lt": "__lt__", "le": "__le__", "gt": "__gt__", "ge": "__ge__"}
 PRED_HEADS = set(CMP) | {"and", "or", "not", "plit", "pref", "inrange", "inseq", "rgt"}
@@ -54,7 +55,7 @@ def z3_of_ast(e, row, bind):
         return row[e[1]]
     if h == "lit":
         return zval(e[1], bind)
-    if h in ("neg", "rneg"):
+    if h in ("neg", "rneg", "efn"):
         return -z3_of_ast(e[1], row, bind)
     if h == "rgt":
         return z3_of_ast(e[1], row, bind) > z3_of_ast(e[2], row, bind)
@@ -93,7 +94,7 @@ def py_of_ast(e, row, bind):
         return row[e[1]]
     if h == "lit":
         return bind[e[1]] if isinstance(e[1], str) else e[1]
-    if h in ("neg", "rneg"):
+    if h in ("neg", "rneg", "efn"):
         return -py_of_ast(e[1], row, bind)
     if h == "rgt":
         return py_of_ast(e[1], row, bind) > py_of_ast(e[2], row, bind)
@@ -133,7 +134,7 @@ def ast_columns(e):
         return set()
     if h == "inrange":
         return ast_columns(e[1])
-    if h == "rneg":
+    if h in ("rneg", "efn"):
         return ast_columns(e[1])
     if h == "rgt":
         return ast_columns(e[1]) | ast_columns(e[2])
@@ -158,6 +159,8 @@ def ast_str(e):
         return f"-({ast_str(e[1])})"
     if h == "rneg":
         return f"-{e[2]}({ast_str(e[1])})"
+    if h == "efn":
+        return f"{EFN[e[2]]}({ast_str(e[1])})"
     if h == "rgt":
         return f"({ast_str(e[1])}>{e[3]} {ast_str(e[2])})"
     sym = {"add": "+", "sub": "-", "mul": "*", "eq": "=", "ne": "!=", "lt": "<", "le": "<=", "gt": ">", "ge": ">="}
@@ -188,6 +191,12 @@ def lib_of_ast(e, tags, val):
         return ColumnExpression.literal(val(e[1]))
     if h == "neg":
         return lib_of_ast(e[1], tags, val).method("__neg__")
+    if h == "efn":
+        # a function only one engine kind implements (registered by Env in that kind's `functions` only) and declared so
+        from lsst.daf.relation import iteration, sql
+
+        kinds = {"it": (iteration.Engine,), "sq": (sql.Engine,)}[e[2]]
+        return lib_of_ast(e[1], tags, val).method(EFN[e[2]], supporting_engine_types=kinds)
     if h in ("rneg", "rgt"):
         from lsst.daf.relation import iteration, sql
 
@@ -252,7 +261,7 @@ def z3_of_lib(e, row):
         return row[e.tag.qualified_name]
     if isinstance(e, ColumnFunction):
         xs = [z3_of_lib(a, row) for a in e.args]
-        if e.name == "__neg__":
+        if e.name == "__neg__" or e.name in EFN.values():
             return -xs[0]
         if e.name == "__add__":
             return xs[0] + xs[1]
@@ -284,3 +293,60 @@ def z3_of_lib(e, row):
         if isinstance(c, ColumnExpressionSequence):
             return zor(x == z3_of_lib(i, row) for i in c.items)
     raise TypeError(f"unsupported expression {e!r}")
+
+
+def lib_supported(e, engine):
+    """Independent reading of "engine supports this expression": every (predicate) function node restricted to engine types
+    must name the engine's type; all other nodes only recurse.  Does not call the library's is_supported_by."""
+    from lsst.daf.relation import (ColumnExpressionSequence, ColumnFunction, ColumnInContainer, LogicalAnd, LogicalNot, LogicalOr,
+                                   PredicateFunction)
+
+    if isinstance(e, (ColumnFunction, PredicateFunction)):
+        types = e.supporting_engine_types
+        if types is not None and not isinstance(engine, tuple(types) if not isinstance(types, type) else types):
+            return False
+        return all(lib_supported(a, engine) for a in e.args)
+    if isinstance(e, LogicalNot):
+        return lib_supported(e.operand, engine)
+    if isinstance(e, (LogicalAnd, LogicalOr)):
+        return all(lib_supported(o, engine) for o in e.operands)
+    if isinstance(e, ColumnInContainer):
+        return lib_supported(e.item, engine) and lib_supported(e.container, engine)
+    if isinstance(e, ColumnExpressionSequence):
+        return all(lib_supported(i, engine) for i in e.items)
+    return True
+
+
+def op_supported(o, engine):
+    """The same for a real unary operation / join."""
+    from lsst.daf.relation import Calculation, Join, PartialJoin, Selection, Sort
+
+    if isinstance(o, Calculation):
+        return lib_supported(o.expression, engine)
+    if isinstance(o, Selection):
+        return lib_supported(o.predicate, engine)
+    if isinstance(o, Sort):
+        return all(lib_supported(t.expression, engine) for t in o.terms)
+    if isinstance(o, Join):
+        return lib_supported(o.predicate, engine)
+    if isinstance(o, PartialJoin):
+        return lib_supported(o.binary.predicate, engine)
+    return True
+
+
+def restricted_twins(e):
+    """ASTs equal to sub-expressions of e as the library compares them (same function name and arguments) but declared with
+    other engine restrictions."""
+    out = []
+    if not isinstance(e, tuple) or not e:
+        return out
+    if e[0] == "rneg":
+        out += [("neg", e[1])] + [("rneg", e[1], k) for k in ("it", "sq", "both") if k != e[2]]
+    elif e[0] == "rgt":
+        out += [("gt", e[1], e[2])] + [("rgt", e[1], e[2], k) for k in ("it", "sq", "both") if k != e[3]]
+    elif e[0] == "neg":
+        out += [("rneg", e[1], k) for k in ("it", "sq")]
+    for x in e[1:]:
+        if isinstance(x, tuple):
+            out += restricted_twins(x)
+    return out
